@@ -7,6 +7,7 @@ import numpy as np
 from physt._construction import calculate_1d_bins
 from physt.binnings import BinningBase, as_binning
 from physt.histogram1d import Histogram1D, ObjectWithBinning
+from physt.statistics import INVALID_STATISTICS
 
 if TYPE_CHECKING:
     from typing import Any, Dict, Optional, Tuple
@@ -124,6 +125,7 @@ class HistogramCollection(Container[Histogram1D], ObjectWithBinning):
             h.set_dtype(float)
             h._frequencies /= sums
             h._errors2 /= sums**2  # TODO: Does this make sense?
+            h._stats = INVALID_STATISTICS  # As after any division by an array
         return col
 
     def normalize_all(self, inplace: bool = False) -> "HistogramCollection":
